@@ -894,6 +894,10 @@ func te2eExec1(tok []string) string {
 		return te2eLife(kv)
 	case "sched":
 		return te2eSched(kv)
+	case "reload":
+		return te2eReload(kv)
+	case "ppc":
+		return te2ePPC(kv)
 	}
 	return "badop"
 }
@@ -909,6 +913,17 @@ func te2eGen(rng *rand.Rand, n int, emit func(string)) {
 		emit(fmt.Sprintf("xfer cfg=%s type=%s enc=%d comp=%d lim=%s pp=%d n=%d ch=%d pat=%s mode=%s seed=%d",
 			cfg, typ, enc, comp, lim, ppv, sz, ch, pat, mode, rng.Intn(100000)))
 	}
+	// a running frpc is re-configured: every change class once (local only: backend / header version / plugin; two proxies
+	// swapping backends; a field frps sees; both; nothing; a proxy goes and comes back; a name twice), then generated histories
+	emit(fmt.Sprintf("reload cfg=111 steps=0.0.0.0.0.0+1.1.0.2.0.0+2.2.0.1.1.0+3.3.0.0.0.0/0.1.0.0.0.0+1.0.0.2.0.0+2.2.0.1.1.0+3.3.0.0.0.0/"+
+		"0.1.0.1.0.0+1.0.0.2.0.0+2.2.0.1.1.0+3.4.0.2.0.0/0.1.0.1.0.0+1.0.0.2.0.1+2.2.1.1.1.0+3.4.0.2.0.0/0.1.0.1.0.0+1.0.0.2.0.1+2.2.1.1.1.0+3.4.0.2.0.0/"+
+		"1.3.1.0.0.0+3.4.0.2.0.0/1.3.1.0.0.0+0.2.0.0.0.0+3.0.1.1.0.0+0.4.1.2.0.0 seed=%d", rng.Intn(100000)))
+	emit(te2eGenReload(rng, "001"))
+	emit(te2eGenReload(rng, "100"))
+	// users that arrive together at one proxy with a declared proxy-protocol header (v2 / v1, dialled / through the plugin)
+	emit(fmt.Sprintf("ppc cfg=001 px=0.2.0.2.0.0 k=12 rounds=2 ips=3 seed=%d", rng.Intn(100000)))
+	emit(fmt.Sprintf("ppc cfg=111 px=3.1.1.1.1.0 k=6 rounds=2 ips=1 seed=%d", rng.Intn(100000)))
+	emit(fmt.Sprintf("ppc cfg=100 px=1.4.0.2.0.1 k=24 rounds=1 ips=4 seed=%d", rng.Intn(100000)))
 	// the defect region first (server-side limiter), few cases: each costs the full EOF wait
 	x("111", "tcp", 0, 0, "srv", 0, 300, 0, "rand", "oneway")
 	x("001", "tcp", 1, 1, "srv", 1, 5000, 7, "mixed", "echo")
@@ -956,6 +971,14 @@ func te2eGen(rng *rand.Rand, n int, emit func(string)) {
 		}
 		if rng.Intn(8) == 0 {
 			emit(te2eGenSched(rng, cfg))
+			continue
+		}
+		if rng.Intn(7) == 0 {
+			emit(te2eGenReload(rng, pick(rng, []string{"111", "001", "100"})))
+			continue
+		}
+		if rng.Intn(12) == 0 {
+			emit(te2eGenPPC(rng, pick(rng, []string{"111", "001", "100"})))
 			continue
 		}
 		if rng.Intn(12) == 0 {
